@@ -93,6 +93,7 @@ type Exec struct {
 	fsSeq       int
 	fsModelOn   bool
 	fsFaultBudget int
+	curFn       *ssa.Function
 	fsStatDirs  bool
 	fsFaultOps  map[string]bool
 	walkList    []walkEntry
@@ -351,7 +352,7 @@ func (e *Exec) checkFail(fail *Term, id, kind, msg, site string) bool {
 		return false
 	}
 	if r == Unknown {
-		e.incon("assertion query unknown: " + id)
+		e.incon("assertion query unknown: " + id + " " + e.solver.lastErr)
 		return false
 	}
 	regs := e.applicableRegions(id)
